@@ -207,34 +207,39 @@ Section ExprSound.
   Variable E : nat -> ty.
   Variable MO : nat -> bool.
   Variable st : store.
-  (* every readable name holds a value its NameNode type describes *)
-  Hypothesis names_ok : forall x ann cf v w, st x = Some (v, w) -> In w cf ->
-    ty_ok (name_ty (E x) (MO x) ann) v = true.
-  (* wider hypothesis is checked per name node in part C *)
+  (* every name node of the expression reads a value its NameNode type describes *)
+  Fixpoint names_ok (e : expr) : Prop :=
+    match e with
+    | EName x ann cf => forall v w, st x = Some (v, w) -> In w cf -> ty_ok (name_ty (E x) (MO x) ann) v = true
+    | EBin _ a b | ECond _ a b | EBoolOp a b => names_ok a /\ names_ok b
+    | EUn _ a => names_ok a
+    | _ => True
+    end.
 
-  Lemma expr_sound : forall e v, ev st e v -> expr_ok T E MO e = true -> ty_ok (ety T E MO e) v = true.
+  Lemma expr_sound : forall e v, ev st e v -> expr_ok T E MO e = true -> names_ok e ->
+    ty_ok (ety T E MO e) v = true.
   Proof.
-    intros e v H. induction H; intros Hok; simpl in *; try reflexivity;
+    intros e v H. induction H; intros Hok Hn; simpl in *; try reflexivity;
       try (match goal with |- ty_ok TObj ?v = true => destruct v; reflexivity end).
     - (* int *) unfold long_literal. destruct ((- 2 ^ 31 <=? z) && (z <? 2 ^ 31)) eqn:Hz; [|reflexivity].
       change (in64 z = true). unfold in64. lia.
-    - (* name *) eapply names_ok; eassumption.
+    - (* name *) eapply Hn; eassumption.
     - (* bin *)
       apply andb_true_iff in Hok. destruct Hok as [Hok Hent].
       apply andb_true_iff in Hok. destruct Hok as [Ha Hb].
-      specialize (IHev1 Ha). specialize (IHev2 Hb).
+      specialize (IHev1 Ha (proj1 Hn)). specialize (IHev2 Hb (proj2 Hn)).
       unfold bin_entry_ok in Hent. apply andb_true_iff in Hent. destruct Hent as [Hc Hall].
       apply kind_ty_ok; [destruct (is_cintw _); [discriminate Hc | reflexivity]|].
       pose proof (kmem_forallb _ _ _ Hall (ty_ok_kind _ _ IHev1)) as H3. simpl in H3.
       pose proof (kmem_forallb _ _ _ H3 (ty_ok_kind _ _ IHev2)) as H4. simpl in H4.
       rewrite (pybin_kind _ _ _ _ H1) in H4. exact H4.
     - (* not *)
-      apply andb_true_iff in Hok. destruct Hok as [Ha Hent]. specialize (IHev Ha).
+      apply andb_true_iff in Hok. destruct Hok as [Ha Hent]. specialize (IHev Ha Hn).
       unfold un_entry_ok in Hent. apply andb_true_iff in Hent. destruct Hent as [Hc Hall].
       apply kind_ty_ok; [destruct (is_cintw _); [discriminate Hc | reflexivity]|].
       pose proof (kmem_forallb _ _ _ Hall (ty_ok_kind _ _ IHev)) as H3. simpl in H3. exact H3.
     - (* unop *)
-      apply andb_true_iff in Hok. destruct Hok as [Ha Hent]. specialize (IHev Ha).
+      apply andb_true_iff in Hok. destruct Hok as [Ha Hent]. specialize (IHev Ha Hn).
       unfold un_entry_ok in Hent. apply andb_true_iff in Hent. destruct Hent as [Hc Hall].
       apply kind_ty_ok; [destruct (is_cintw _); [discriminate Hc | reflexivity]|].
       pose proof (kmem_forallb _ _ _ Hall (ty_ok_kind _ _ IHev)) as H3. simpl in H3.
@@ -243,25 +248,165 @@ Section ExprSound.
       apply andb_true_iff in Hok. destruct Hok as [Hok Hent].
       apply andb_true_iff in Hok. destruct Hok as [Ha Hb].
       unfold cond_entry_ok in Hent. apply andb_true_iff in Hent. destruct Hent as [H1 H2].
-      eapply tsub_sound; [exact H1 | apply IHev, Ha].
+      eapply tsub_sound; [exact H1 | apply IHev; [exact Ha | exact (proj1 Hn)]].
     - (* cond 2 *)
       apply andb_true_iff in Hok. destruct Hok as [Hok Hent].
       apply andb_true_iff in Hok. destruct Hok as [Ha Hb].
       unfold cond_entry_ok in Hent. apply andb_true_iff in Hent. destruct Hent as [H1 H2].
-      eapply tsub_sound; [exact H2 | apply IHev, Hb].
+      eapply tsub_sound; [exact H2 | apply IHev; [exact Hb | exact (proj2 Hn)]].
     - (* boolop 1 *)
       apply andb_true_iff in Hok. destruct Hok as [Hok Hent].
       apply andb_true_iff in Hok. destruct Hok as [Ha Hb].
       unfold bool_entry_ok in Hent. apply andb_true_iff in Hent. destruct Hent as [H1 H2].
-      eapply tsub_sound; [exact H1 | apply IHev, Ha].
+      eapply tsub_sound; [exact H1 | apply IHev; [exact Ha | exact (proj1 Hn)]].
     - (* boolop 2 *)
       apply andb_true_iff in Hok. destruct Hok as [Hok Hent].
       apply andb_true_iff in Hok. destruct Hok as [Ha Hb].
       unfold bool_entry_ok in Hent. apply andb_true_iff in Hent. destruct Hent as [H1 H2].
-      eapply tsub_sound; [exact H2 | apply IHev, Hb].
+      eapply tsub_sound; [exact H2 | apply IHev; [exact Hb | exact (proj2 Hn)]].
     - (* opaque *) exact H.
   Qed.
 End ExprSound.
+
+(* ------------------------------------------------------------------ C. all executions of a summary *)
+Lemma ty_eqb_eq : forall a b, ty_eqb a b = true -> a = b.
+Proof. destruct a, b; simpl; intros H; try discriminate H; reflexivity. Qed.
+Lemma ty_ok_obj : forall v, ty_ok TObj v = true.
+Proof. destruct v; reflexivity. Qed.
+Lemma pyobj_none : forall t, is_pyobj t = true -> ty_ok t VNone = true.
+Proof. destruct t; simpl; intros H; try discriminate H; reflexivity. Qed.
+Lemma is_none_rhs_inv : forall e, is_none_rhs e = true -> e = ENone.
+Proof. destruct e; simpl; intros H; try discriminate H; reflexivity. Qed.
+
+Section Trace.
+  Variable fx : flags.
+  Variable T : tables.
+  Variable s : summary.
+  Variable D : list ty.
+  Let MO := mo_of fx s.
+  Let E := lookup D.
+  (* D is a state the inferer can stop at *)
+  Hypothesis Hstable : stable fx T s D MSafe = true.
+  (* pure Python: declared entries (arguments) are plain objects *)
+  Hypothesis Hdecl : forall x d, nth x (s_decl s) None = Some d -> d = TObj.
+  (* right-hand sides avoid the operator typings of bad_bin / bad_un / bad_cond / bad_bool *)
+  Hypothesis Hexpr : forall a asg, nth_error (s_assigns s) a = Some asg -> expr_ok T E MO (a_rhs asg) = true.
+  (* exclusion of the finding class: no int / float-object source of a local inferred as C double *)
+  Hypothesis Hnoexc : forall a asg, nth_error (s_assigns s) a = Some asg ->
+    span_exc (aty fx T s D a) (E (a_lhs asg)) = false.
+  (* a local that is assigned None stays a Python object *)
+  Hypothesis Hnone : forall a asg, nth_error (s_assigns s) a = Some asg ->
+    is_none_rhs (a_rhs asg) = true -> is_pyobj (E (a_lhs asg)) = true.
+
+  Definition inv (st : store) : Prop := forall x v w, st x = Some (v, w) ->
+    exists asg, nth_error (s_assigns s) w = Some asg /\ a_lhs asg = x /\
+      ty_ok (aty fx T s D w) v = true /\ (is_none_rhs (a_rhs asg) = true -> v = VNone).
+
+  (* one step = any assignment of the function, in any order (control flow abstracted away) *)
+  Inductive step : store -> store -> Prop :=
+  | step_asg : forall st a asg v, nth_error (s_assigns s) a = Some asg -> ev st (a_rhs asg) v ->
+      step st (fun y => if Nat.eqb y (a_lhs asg) then Some (v, a) else st y).
+  Inductive steps : store -> store -> Prop :=
+  | steps_refl : forall st, steps st st
+  | steps_cons : forall st1 st2 st3, steps st1 st2 -> step st2 st3 -> steps st1 st3.
+
+  Lemma stable_parts :
+    (forall x, (x < length D)%nat -> stable_entry fx T s D MSafe x = true) /\
+    (forall asg, In asg (s_assigns s) -> ann_ok fx T s D (a_rhs asg) = true).
+  Proof.
+    unfold stable in Hstable. apply andb_true_iff in Hstable. destruct Hstable as [H12 H3].
+    apply andb_true_iff in H12. destruct H12 as [_ H2]. split.
+    - intros x Hx. rewrite forallb_forall in H2. apply H2. apply in_seq. lia.
+    - intros asg Hin. rewrite forallb_forall in H3. apply H3, Hin.
+  Qed.
+
+  Lemma entry_holds : forall w asg v,
+    nth_error (s_assigns s) w = Some asg -> ty_ok (aty fx T s D w) v = true ->
+    (is_none_rhs (a_rhs asg) = true -> v = VNone) -> ty_ok (E (a_lhs asg)) v = true.
+  Proof.
+    intros w asg v Hw Hv Hnv.
+    destruct (is_none_rhs (a_rhs asg)) eqn:Hisn.
+    { rewrite (Hnv eq_refl). apply pyobj_none. eapply Hnone; eassumption. }
+    clear Hnv.
+    set (x := a_lhs asg).
+    destruct (Nat.ltb x (length D)) eqn:Hlt.
+    2:{ unfold E, lookup. rewrite nth_overflow; [apply ty_ok_obj|]. apply Nat.ltb_ge in Hlt. exact Hlt. }
+    apply Nat.ltb_lt in Hlt.
+    pose proof (proj1 stable_parts x Hlt) as Hse. unfold stable_entry in Hse.
+    destruct (nth x (s_decl s) None) as [d|] eqn:Hd.
+    { apply ty_eqb_eq in Hse. fold E in Hse. fold (E x). rewrite Hse. rewrite (Hdecl _ _ Hd). apply ty_ok_obj. }
+    apply orb_true_iff in Hse. destruct Hse as [Hse | Hse].
+    { apply ty_eqb_eq in Hse. fold (E x). unfold E. rewrite Hse. apply ty_ok_obj. }
+    apply ty_eqb_eq in Hse. unfold entry_type in Hse. rewrite Hd in Hse. fold MO in Hse. fold E in Hse.
+    assert (Hin : In (aty fx T s D w) (inferred_types T s E MO x)).
+    { unfold inferred_types.
+      assert (Hm : In (aty fx T s D w)
+                (map (fun a => ety T E MO (a_rhs a))
+                   (filter (fun a => negb (is_none_rhs (a_rhs a))) (assigns_of s x)))).
+      { unfold aty. rewrite Hw. fold MO. fold E.
+        apply (in_map (fun a => ety T E MO (a_rhs a))). apply filter_In. split.
+        - unfold assigns_of. apply filter_In. split; [eapply nth_error_In; exact Hw | apply Nat.eqb_refl].
+        - rewrite Hisn. reflexivity. }
+      match goal with |- In _ (if ?c then _ else _) => destruct c end; [apply in_or_app; left|]; exact Hm. }
+    destruct (inferred_types T s E MO x) as [|t0 tys] eqn:Hty; [contradiction|].
+    simpl in Hse.
+    destruct (safe_span_sound_partial fx (t0 :: tys) (MO x) _ Hin) as [Hs | [Hr Hexc]].
+    - fold (E x). rewrite Hse. eapply tsub_sound; eassumption.
+    - exfalso. pose proof (Hnoexc w asg Hw) as Hne. fold x in Hne. rewrite Hse, Hr in Hne.
+      destruct Hexc as [He | [He | [He | He]]]; rewrite He in Hne; discriminate Hne.
+  Qed.
+
+  Lemma names_hold : forall st e, inv st -> ann_ok fx T s D e = true -> names_ok E MO st e.
+  Proof.
+    intros st e Hinv. induction e; simpl; intros Ha; try exact I;
+      try (apply andb_true_iff in Ha; destruct Ha as [Ha1 Ha2]; split; auto; fail); auto.
+    - (* name *)
+      intros v w Hst Hin. apply andb_true_iff in Ha. destruct Ha as [_ Hann].
+      destruct (Hinv _ _ _ Hst) as [asg [Hw [Hl [Hv Hnv]]]].
+      pose proof (entry_holds w asg v Hw Hv Hnv) as Hent. rewrite Hl in Hent.
+      unfold name_ty. destruct (is_pyobj (E x)); [|exact Hent].
+      destruct ann as [t|]; [|exact Hent].
+      destruct (negb (is_cint t && MO x)); [|exact Hent].
+      rewrite forallb_forall in Hann. specialize (Hann w Hin). rewrite Hw in Hann.
+      apply orb_true_iff in Hann. destruct Hann as [Hn | Hs].
+      + apply andb_true_iff in Hn. destruct Hn as [Hn Hp]. rewrite (Hnv Hn). apply pyobj_none, Hp.
+      + eapply tsub_sound; eassumption.
+    - (* cond *)
+      apply andb_true_iff in Ha. destruct Ha as [Ha Ha3]. apply andb_true_iff in Ha. destruct Ha as [Ha1 Ha2].
+      split; auto.
+  Qed.
+
+  Lemma step_inv : forall st st', inv st -> step st st' -> inv st'.
+  Proof.
+    intros st st' Hinv Hstep. destruct Hstep as [st a asg v Ha Hev].
+    intros x v' w' Hst'. destruct (Nat.eqb x (a_lhs asg)) eqn:Hx.
+    - inversion Hst'; subst v' w'. apply Nat.eqb_eq in Hx. exists asg. repeat split; auto.
+      + unfold aty. rewrite Ha. fold MO. fold E. apply expr_sound with (st := st); auto.
+        * eapply Hexpr; eassumption.
+        * apply names_hold; [exact Hinv|]. apply (proj2 stable_parts). eapply nth_error_In; eassumption.
+      + intros Hn. rewrite (is_none_rhs_inv _ Hn) in Hev. inversion Hev. reflexivity.
+    - apply Hinv, Hst'.
+  Qed.
+
+  Lemma steps_inv : forall st0 st, inv st0 -> steps st0 st -> inv st.
+  Proof.
+    intros st0 st H0 Hs. induction Hs as [st1|st1 st2 st3 H12 IH H23]; [exact H0|].
+    eapply step_inv; [apply IH, H0 | exact H23].
+  Qed.
+
+  (* MAIN: in every state reachable from the empty store, by any sequence of the function's
+     assignments evaluated in the reference semantics, every local holds a value that its inferred
+     type represents with unchanged Python type and, for C integers, within range *)
+  Theorem infer_sound_partial : forall st x v w,
+    steps (fun _ => None) st -> st x = Some (v, w) -> ty_ok (E x) v = true.
+  Proof.
+    intros st x v w Hsteps.
+    assert (Hinv : inv st).
+    { eapply steps_inv; [|exact Hsteps]. intros x0 v0 w0 H0. discriminate H0. }
+    intros Hst. destruct (Hinv _ _ _ Hst) as [asg [Hw [Hl [Hv Hnv]]]].
+    rewrite <- Hl. eapply entry_holds; eassumption.
+  Qed.
+End Trace.
 
 (* ------------------------------------------------------------------ facts about the dumped tables *)
 From CyVerif Require Import Gen.Gen_Infer.
@@ -304,3 +449,13 @@ Lemma neg_bint_refuted : exists v1 v, ty_ok TCBint v1 = true /\ pyun Neg v1 = So
 Proof. exists (VBool true), (VInt (-1)). vm_compute. auto. Qed.
 Lemma cond_long_double_refuted : exists v, ty_ok TCLong v = true /\ ty_ok (cond_ty gen_tables TCLong TCDouble) v = false.
 Proof. exists (VInt 3). vm_compute. auto. Qed.
+
+Lemma ty_ok_cint_value : forall v, ty_ok TCLong v = true -> exists z, v = VInt z /\ - 2 ^ 63 <= z < 2 ^ 63.
+Proof.
+  intros v H. destruct v; try discriminate H. exists z. split; [reflexivity|].
+  change (in64 z = true) in H. unfold in64 in H. lia.
+Qed.
+Lemma ty_ok_cdouble_value : forall v, ty_ok TCDouble v = true -> v = VFloat.
+Proof. intros v H. destruct v; simpl in H; try discriminate H. reflexivity. Qed.
+Lemma ty_ok_cbint_value : forall v, ty_ok TCBint v = true -> exists b, v = VBool b.
+Proof. intros v H. destruct v; simpl in H; try discriminate H. eexists; reflexivity. Qed.
